@@ -5,6 +5,9 @@ import common
 
 N = {"quick": 600, "thorough": 15000}
 
+PRELUDES = ['def e { return "a" weighted 1 } /* notes', 'def e { return "a" weighted }', 'def e { @ }', '/*', 'def e { salt: "unterminated }',
+            'def e { splitters: class return "a" weighted 1 }', '', 'def e { return "a" weighted 1 } /* a */ /* b']
+
 
 def make_cases(ctx, n, big=False):
     rng = ctx.rng
@@ -20,7 +23,11 @@ def make_cases(ctx, n, big=False):
         prog = gen.gen_program(rng, opts)
         text = gen.render(prog, rng, rng.choice(["plain", "tight", "trivia"]))
         envs = [gen.gen_env(prog, rng) for _ in range(3)]
-        cases.append({"prog": prog, "text": text, "envs": envs})
+        case = {"prog": prog, "text": text, "envs": envs}
+        if rng.random() < 0.25:
+            # a sentence must compile whatever was submitted before it
+            case["prelude"] = rng.choice(PRELUDES)
+        cases.append(case)
     return cases
 
 
